@@ -91,6 +91,9 @@ usage:
 			return nil, fmt.Errorf("duplicated: %s", s[0])
 		}
 		seen[s[0]] = struct{}{}
+		if len(s) < 2 && s[0] != "readonly" {
+			return nil, fmt.Errorf("option needs a value: %s=...", s[0])
+		}
 		switch s[0] {
 		case "columns":
 			err = convertSchema(internal.UnquoteAll(s[1]), table)
